@@ -300,7 +300,7 @@ func (s *Sim) runFinale() {
 		return
 	}
 	for _, ns := range s.serving() {
-		s.res.FinalDumps[ns.id] = ns.inc.vn.Manager().DBs[0].VerifDump(false)
+		s.res.FinalDumps[ns.id] = dumpAll(ns.inc.vn.Manager())
 		s.res.FinalIdx[ns.id] = ns.view.applied
 		s.trace("final n%d applied=%d dump=%016x", ns.id, ns.view.applied, hashLines(s.res.FinalDumps[ns.id]))
 	}
@@ -322,7 +322,7 @@ func hashLines(l []string) uint64 {
 // ---- C14 reference: the same program through a standalone manager ----------------
 
 func (s *Sim) runReference() {
-	cfg := &config.Config{ShardNum: s.k.ShardNum, Databases: 1, ChanBufferSize: 10, LogLevel: "panic"}
+	cfg := &config.Config{ShardNum: s.k.ShardNum, Databases: s.databases(), ChanBufferSize: 10, LogLevel: "panic"}
 	config.Configures = cfg
 	mgr := server.NewManager(cfg)
 	// a standalone SUBSCRIBE leaves a goroutine behind that lives as long as its
@@ -372,7 +372,7 @@ func (s *Sim) runReference() {
 	}
 	s.res.RefSkipped = len(prog.Cmds) - len(kept)
 	prog.Cmds = kept
-	s.res.RefDump = mgr.DBs[0].VerifDump(false)
+	s.res.RefDump = dumpAll(mgr)
 }
 
 func (s *Sim) attemptTimeout() time.Duration {
